@@ -1,6 +1,6 @@
 (* C07 -- property theorems only.  Proofs live in C07/Proofs*.v. *)
 From Coq Require Import NArith List Bool Arith.
-From DV Require Import Base.Outcome Base.Bytes C07.Gen C07.Model C07.Proofs C07.Proofs2 C07.Proofs3 C07.Proofs4.
+From DV Require Import Base.Outcome Base.Bytes C07.Gen C07.Model C07.Proofs C07.Proofs2 C07.Proofs3 C07.Proofs4 C07.Proofs5 C07.Proofs6.
 Import ListNotations.
 Local Open Scope N_scope.
 
@@ -268,3 +268,106 @@ Theorem C07_scan_uint_no_overflow_panic : forall fuel maxv s res,
   uint_loop fuel maxv ttl_add_checked s res <> Panic 7.
 Proof. exact scan_uint_no_overflow_panic. Qed.
 Print Assumptions C07_scan_uint_no_overflow_panic.
+
+Theorem C07_items_of_Lex : forall file, Lex file 0 (fst (items_of file)) (snd (items_of file)).
+Proof. exact items_of_Lex. Qed.
+Print Assumptions C07_items_of_Lex.
+
+Theorem C07_Lex_deterministic : forall l p i1 e1, Lex l p i1 e1 ->
+  forall i2 e2, Lex l p i2 e2 -> i1 = i2 /\ e1 = e2.
+Proof. exact Lex_det. Qed.
+Print Assumptions C07_Lex_deterministic.
+
+Theorem C07_reader_is_local : forall r1 r2, delim_head r1 -> delim_head r2 ->
+  forall l p its l' p', Reach l p its l' p' -> forall u, l = u ++ r1 -> (length r1 <= length l')%nat ->
+  exists u', l' = u' ++ r1 /\ Reach (u ++ r2) p its (u' ++ r2) p'.
+Proof. exact Reach_local. Qed.
+Print Assumptions C07_reader_is_local.
+
+Theorem C07_layout_whole_file : forall pre r1 r2 its1 p1,
+  delim_head r1 -> delim_head r2 -> same_view r1 r2 ->
+  Reach (pre ++ r1) 0 its1 r1 p1 ->
+  items_of (pre ++ r1) = items_of (pre ++ r2).
+Proof. exact layout_whole_file. Qed.
+Print Assumptions C07_layout_whole_file.
+
+Theorem C07_layout_spacing_whole_file : forall pre ws1 ws2 t its1 p1,
+  Forall (fun c => is_space c = true) ws1 -> ws1 <> [] ->
+  Forall (fun c => is_space c = true) ws2 -> ws2 <> [] ->
+  Reach (pre ++ ws1 ++ t) 0 its1 (ws1 ++ t) p1 ->
+  items_of (pre ++ ws1 ++ t) = items_of (pre ++ ws2 ++ t).
+Proof. exact layout_spacing_whole_file. Qed.
+Print Assumptions C07_layout_spacing_whole_file.
+
+Theorem C07_layout_comment_whole_file : forall pre c t its1 p1,
+  Forall (fun x => x <> ni_comment_end) c ->
+  Reach (pre ++ ni_newline :: t) 0 its1 (ni_newline :: t) p1 ->
+  items_of (pre ++ ni_newline :: t) = items_of (pre ++ ni_comment :: c ++ ni_newline :: t).
+Proof. exact layout_comment_whole_file. Qed.
+Print Assumptions C07_layout_comment_whole_file.
+
+Theorem C07_layout_crlf_whole_file : forall pre t its1 p1,
+  Reach (pre ++ 32 :: ni_newline :: t) 0 its1 (32 :: ni_newline :: t) p1 ->
+  items_of (pre ++ 32 :: ni_newline :: t) = items_of (pre ++ 32 :: 13 :: ni_newline :: t).
+Proof. exact layout_crlf_whole_file. Qed.
+Print Assumptions C07_layout_crlf_whole_file.
+
+Theorem C07_scan_octets_protocol : forall s, PInv s -> good (fun rs => PInv (snd rs)) (scan_octets s).
+Proof. exact scan_octets_good. Qed.
+Print Assumptions C07_scan_octets_protocol.
+
+Theorem C07_scan_ascii_str_protocol : forall A (op : list N -> outcome A) s,
+  (forall l, no_panic (op l)) -> PInv s -> good (fun rs => PInv (snd rs)) (scan_ascii_str op s).
+Proof. exact @scan_ascii_str_good. Qed.
+Print Assumptions C07_scan_ascii_str_protocol.
+
+Theorem C07_scan_uint_protocol : forall maxv s, PInv s -> good (fun rs => PInv (snd rs)) (scan_uint maxv true s).
+Proof. exact scan_uint_good. Qed.
+Print Assumptions C07_scan_uint_protocol.
+
+Theorem C07_scan_name_protocol : forall origin s, PInv s -> good (fun rs => PInv (snd rs)) (scan_name origin s).
+Proof. exact scan_name_good. Qed.
+Print Assumptions C07_scan_name_protocol.
+
+Theorem C07_scan_charstr_entry_protocol : forall s, PInv s -> good (fun rs => PInv (snd rs)) (scan_charstr_entry s).
+Proof. exact scan_charstr_entry_good. Qed.
+Print Assumptions C07_scan_charstr_entry_protocol.
+
+Theorem C07_convert_entry_protocol : forall (St : Type) process tail,
+  (forall (h : St) sym, no_panic (process h sym)) -> (forall h, no_panic (tail h)) ->
+  forall init s, PInv s -> good (fun rs => PInv (snd rs)) (convert_entry St process tail init s).
+Proof. exact convert_entry_good. Qed.
+Print Assumptions C07_convert_entry_protocol.
+
+Theorem C07_skip_markers_protocol : forall s, PInv s ->
+  good (fun bs => PInv (snd bs) /\ (fst bs = false -> snd bs = s)) (skip_at_token s) /\
+  good (fun bs => PInv (snd bs) /\ (fst bs = false -> snd bs = s)) (skip_unknown_marker s).
+Proof. intros s H. split; [exact (skip_at_token_good s H) | exact (skip_unknown_marker_good s H)]. Qed.
+Print Assumptions C07_skip_markers_protocol.
+
+Theorem C07_method_sequences_protocol : forall allow,
+  (allow = true -> forall c sym, no_panic (b64_process c sym)) ->
+  forall origin ms s, Forall (meth_ok allow) ms -> PInv s -> good PInv (run_type_scan origin ms s).
+Proof. exact run_type_scan_good. Qed.
+Print Assumptions C07_method_sequences_protocol.
+
+Theorem C07_type_scans_decodable :
+  forallb (fun x => match decode_meths (snd x) with Some _ => true | None => false end) type_scans = true.
+Proof. exact type_scans_decodable. Qed.
+Print Assumptions C07_type_scans_decodable.
+
+Theorem C07_schema_matches_source :
+  forallb (fun x => match schema (fst x) with
+                    | Some fs => if list_eq_dec N.eq_dec (map field_code fs) (snd x) then true else false
+                    | None => true end) type_scans = true
+  /\ forallb (fun rt => match schema rt with Some _ => existsb (fun x => fst x =? rt) type_scans | None => false end)
+       [1; 2; 3; 4; 5; 6; 7; 8; 9; 12; 13; 14; 15; 16; 17; 33; 35; 39; 44; 52; 61] = true.
+Proof. exact schema_matches_source. Qed.
+Print Assumptions C07_schema_matches_source.
+
+Theorem C07_type_scan_total : forall rt codes ms origin s,
+  In (rt, codes) type_scans -> decode_meths codes = Some ms ->
+  (has_b64 codes = true -> forall c sym, no_panic (b64_process c sym)) ->
+  PInv s -> good PInv (run_type_scan origin ms s).
+Proof. exact type_scan_total. Qed.
+Print Assumptions C07_type_scan_total.
